@@ -159,7 +159,7 @@ def check_call(run, i, op, result):
             run.count('c13:count-model-not-applicable(vocabulary now in a snippet table / boolean list)')
         elif 'expect' in meta:
             run.count('c13:calls-numbering-counted')
-            if len(idx) != meta['expect']:
+            if len(idx) != meta['expect'] and len(idx) != meta.get('expect_alt', meta['expect']):
                 bad('numbering-count', {'tabstops': len(idx), 'empty-values-and-leaves-in-abbreviation': meta['expect']})
                 return
     elif mode == 'explicit':
@@ -168,7 +168,7 @@ def check_call(run, i, op, result):
                 and not (spec.get('options') or {}).get('bem.enabled'):
             run.count('c13:calls-numbering-anonymous-counted')
             anon = len([1 for _ix, ph in fields if not ph])
-            if anon != meta['expect_anon']:
+            if anon != meta['expect_anon'] and anon != meta.get('expect_anon_alt', meta['expect_anon']):
                 bad('numbering-count', {'tabstops-with-empty-placeholder': anon,
                                         'empty-values-and-leaves-in-abbreviation': meta['expect_anon']})
                 return
